@@ -56,36 +56,48 @@ def immutability_records(rng, n):
         cubic_b[(labs[0], labs[1], labs[2])] = rng.choice([-2, 3])
         for kind, cls, d, spin in [("dict", dict, quad_b, False), ("QUBO", qv.QUBO, quad_b, False), ("PUBO", qv.PUBO, cubic_b, False),
                                    ("PCBO", qv.PCBO, cubic_b, False), ("QUSO", qv.QUSO, quad_b, True), ("PUSO", qv.PUSO, cubic_b, True),
-                                   ("PCSO", qv.PCSO, cubic_b, True)]:
+                                   ("PCSO", qv.PCSO, cubic_b, True),
+                                   ("QUBOMatrix", utils.QUBOMatrix, {(0,): 1, (0, 2): -2, (): 3}, False),
+                                   ("PUBOMatrix", utils.PUBOMatrix, {(0,): 1, (0, 2, 3): -2, (): 3}, False),
+                                   ("QUSOMatrix", utils.QUSOMatrix, {(0,): 1, (0, 2): -2, (): 3}, True),
+                                   ("PUSOMatrix", utils.PUSOMatrix, {(0,): 1, (0, 2, 3): -2, (): 3}, True)]:
             m = cls(d)
             if kind in ("PCBO", "PCSO"):
                 m.add_constraint_le_zero({(labs[0],): 1, (labs[1],): 1, (): -1})
             if spin:
                 call("puso_to_pubo", kind, utils.puso_to_pubo, m)
                 call("solve_puso_bruteforce", kind, utils.solve_puso_bruteforce, m)
-                call("puso_value", kind, lambda mm: utils.puso_value({l: 1 for l in labs}, mm), m)
+                call("puso_value", kind, lambda mm: utils.puso_value({**{l: 1 for l in labs}, 0: 1, 1: 1, 2: 1, 3: 1}, mm), m)
                 call("approximate_puso_extrema", kind, utils.approximate_puso_extrema, m)
                 call("anneal_puso", kind, lambda mm: sim.anneal_puso(mm, num_anneals=1, anneal_duration=3, seed=1), m)
-                if kind in ("dict", "QUSO"):
+                if kind in ("dict", "QUSO", "QUSOMatrix"):
                     call("quso_to_qubo", kind, utils.quso_to_qubo, m)
                     call("solve_quso_bruteforce", kind, utils.solve_quso_bruteforce, m)
                     call("anneal_quso", kind, lambda mm: sim.anneal_quso(mm, num_anneals=1, anneal_duration=3, seed=1), m)
             else:
                 call("pubo_to_puso", kind, utils.pubo_to_puso, m)
                 call("solve_pubo_bruteforce", kind, utils.solve_pubo_bruteforce, m)
-                call("pubo_value", kind, lambda mm: utils.pubo_value({l: 1 for l in labs}, mm), m)
+                call("pubo_value", kind, lambda mm: utils.pubo_value({**{l: 1 for l in labs}, 0: 1, 1: 1, 2: 1, 3: 1}, mm), m)
                 call("approximate_pubo_extrema", kind, utils.approximate_pubo_extrema, m)
                 call("anneal_pubo", kind, lambda mm: sim.anneal_pubo(mm, num_anneals=1, anneal_duration=3, seed=1), m)
                 call("sat.NOT", kind, sat.NOT, m)
                 call("sat.AND", kind, lambda mm: sat.AND(mm, labs[2]), m)
                 call("sat.OR", kind, lambda mm: sat.OR(labs[2], mm), m)
                 call("sat.XOR", kind, lambda mm: sat.XOR(mm, mm), m)
-                if kind in ("dict", "QUBO"):
+                if kind in ("dict", "QUBO", "QUBOMatrix"):
                     call("qubo_to_quso", kind, utils.qubo_to_quso, m)
                     call("solve_qubo_bruteforce", kind, utils.solve_qubo_bruteforce, m)
                     call("anneal_qubo", kind, lambda mm: sim.anneal_qubo(mm, num_anneals=1, anneal_duration=3, seed=1), m)
-            call("subvalue", kind, lambda mm: utils.subvalue({labs[0]: 1}, mm), m)
-            call("subgraph", kind, lambda mm: utils.subgraph(mm, {labs[0], labs[1]}, {labs[2]: 1}), m)
+            if not kind.endswith("Matrix"):
+                call("subvalue", kind, lambda mm: utils.subvalue({labs[0]: 1}, mm), m)
+                call("subgraph", kind, lambda mm: utils.subgraph(mm, {labs[0], labs[1]}, {labs[2]: 1}), m)
+            else:
+                call("subvalue", kind, lambda mm: utils.subvalue({0: 1}, mm), m)
+                call("subgraph", kind, lambda mm: utils.subgraph(mm, {0, 2}, {3: 1}), m)
+            if kind.endswith("Matrix"):
+                call(kind + ".solve_bruteforce", kind, lambda mm: mm.solve_bruteforce(), m)
+                call(kind + ".copy", kind, lambda mm: mm.copy(), m)
+                continue
             if kind != "dict":
                 for meth in ("to_qubo", "to_quso", "to_pubo", "to_puso", "to_enumerated", "solve_bruteforce", "copy"):
                     call(kind + "." + meth, kind, lambda mm, me=meth: getattr(mm, me)(), m)
